@@ -84,7 +84,7 @@ def make_gradient():
     return fn
 
 
-def make_spline(kind, how="init", monotone=False, extra_kw=None):
+def make_spline(kind, how="init", monotone=False, extra_kw=None, sibling=False):
     """Spline classes with scipy's interpolators replaced (symbolic mode) by their documented contract:
     both reproduce the support points; PchipInterpolator additionally preserves monotonicity of the data
     (scipy docs: 'preserves monotonicity in the interpolation data and does not overshoot'), interp1d(quadratic) does not."""
@@ -92,9 +92,14 @@ def make_spline(kind, how="init", monotone=False, extra_kw=None):
         ch = ctx.load("pandapower.control.util.characteristic")
         n = 3
         xs, ys = _points(ctx, n, positive=True)
+        if sibling:
+            # concrete support points (the query point stays symbolic): code that keys a table on the points must see hashable numbers, as it
+            # does in a real run - symbolic scalars are deliberately unhashable
+            xs, ys = [1.0, 2.0, 4.0], [0.5, 1.0, 1.5]
         if monotone:
             for i in range(n - 1):
-                ctx.assume(ys[i] <= ys[i + 1])
+                if not sibling:
+                    ctx.assume(ys[i] <= ys[i + 1])
         net = pp.create_empty_network()
         stubs = {}
         built = []
@@ -143,6 +148,11 @@ def make_spline(kind, how="init", monotone=False, extra_kw=None):
             ctx.memo["__rpow_hook__"] = rpow
         kw = dict(extra_kw or {})
         with patched(ch, **stubs):
+            if sibling:
+                # another characteristic over the same points with the other interpolator, created and evaluated first in the same process:
+                # what one characteristic builds must not decide what the other one answers with
+                sib = ch.SplineCharacteristic(net, ctx.array(xs), ctx.array(ys), interpolator_kind="interp1d" if kind == "pchip" else "Pchip", **kw)
+                sib(xs[0])
             if how == "from_points":
                 cls = ch.LogSplineCharacteristic if kind == "log" else ch.SplineCharacteristic
                 if kind == "pchip":
@@ -208,6 +218,10 @@ def instances(tier):
                  meta=dict(cls="SplineCharacteristic", interpolator="Pchip", data="monotone")),
             Inst("spline_from_points_pchip_monotone", make_spline("pchip", how="from_points", monotone=True), nvars=24, samples=3,
                  meta=dict(cls="SplineCharacteristic.from_points", interpolator="Pchip", data="monotone")),
+            Inst("spline_pchip_after_interp1d_sibling", make_spline("pchip", monotone=True, sibling=True), nvars=24, samples=3,
+                 meta=dict(cls="SplineCharacteristic", interpolator="Pchip", sibling="interp1d over the same points, evaluated first")),
+            Inst("spline_interp1d_after_pchip_sibling", make_spline("interp1d", sibling=True), nvars=16, samples=2,
+                 meta=dict(cls="SplineCharacteristic", interpolator="interp1d", sibling="Pchip over the same points, evaluated first")),
             Inst("spline_options_fill_value", make_spline("interp1d", extra_kw=dict(kind="linear", fill_value=(0.5, 2.0))), nvars=16, samples=2,
                  meta=dict(cls="SplineCharacteristic", interpolator="interp1d", options="kind=linear, fill_value=(0.5, 2.0)")),
             Inst("spline_from_points_options", make_spline("interp1d", how="from_points", extra_kw=dict(kind="linear")), nvars=16, samples=2,
